@@ -45,6 +45,7 @@ type Outcome struct {
 	Inconclusive int
 	Evals        int // executions inside this case (enumerations); 0 means 1
 	Skip         bool
+	Harness      string // trouble of the harness itself (watchdog, node protocol): exit 2, never a verdict
 }
 
 // Stats is what a worker writes to <out>/stats-<worker>.json.
@@ -262,7 +263,14 @@ func runPropertyEnum[C any](t *testing.T, prop string, enum []C, gen func(*rapid
 		return run(c)
 	}
 	handle := func(c C, fatal func(sig string)) {
+		if st.HarnessErr != "" {
+			return
+		}
 		o := safeRun(c)
+		if o.Harness != "" {
+			st.HarnessErr = o.Harness
+			return
+		}
 		if o.Skip {
 			return
 		}
@@ -381,7 +389,7 @@ func runPropertyEnum[C any](t *testing.T, prop string, enum []C, gen func(*rapid
 		if *flagMaxCase > 0 && st.Cases >= *flagMaxCase {
 			break
 		}
-		if st.Nondet != "" {
+		if st.Nondet != "" || st.HarnessErr != "" {
 			break
 		}
 		curRapidSeed = splitmix(base + uint64(b)*0x100000001b3)
